@@ -31,10 +31,13 @@ type Ctx struct {
 	SSAPkg     map[string]*ssa.Package // short id -> ssa package
 	CG         *callgraph.Graph
 	ioFreeMemo map[*ssa.Function]bool
-	Funcs      map[string]*ssa.Function // short name -> function (module functions incl. anonymous)
-	AllFuncs   []*ssa.Function          // module functions, deterministic order
-	nameOf     map[*ssa.Function]string
-	cache      map[string]interface{}
+	// strictNarrow: 8/16-bit arithmetic is linear only where it provably does not wrap (set by the C07 rules, which reason
+	// about values taken straight from file bytes; the effect models of other properties keep the idealised view)
+	strictNarrow bool
+	Funcs        map[string]*ssa.Function // short name -> function (module functions incl. anonymous)
+	AllFuncs     []*ssa.Function          // module functions, deterministic order
+	nameOf       map[*ssa.Function]string
+	cache        map[string]interface{}
 }
 
 // shortPkg maps an import path of the module to the short id used in constructs.
